@@ -172,15 +172,15 @@ Definition chk_frame_take (n : nat) (F : fframe) (pos : list nat) (Out : fframe)
   let js := seq 0 (length pos) in
   [ (frame_len Out =? length pos) && forallb (fun j => frow_eqb (frame_row T j) (frame_row Out j)) js;
     forallb (fun j => frow_eqb (frame_row Out j) (frame_row F (nth j pos 0))) js;
-    frame_ok (length pos) Out;
-    frame_ok n F && forallb (fun i => i <? n) pos ].
+    frame_ok (length pos) Out && frame_ok n F;     (* both frames are read back from the library: ill-formed = a verdict *)
+    forallb (fun i => i <? n) pos ].
 Definition chk_frame_filter (n : nat) (F : fframe) (m : list bool) (Out : fframe) : list bool :=
   let T := f_filter F m in
   let js := seq 0 (count_true m) in
   [ (frame_len Out =? count_true m) && forallb (fun j => frow_eqb (frame_row T j) (frame_row Out j)) js;
     forallb (fun j => frow_eqb (frame_row Out j) (frame_row F (nth j (true_positions m) 0))) js;
-    frame_ok (count_true m) Out;
-    frame_ok n F && (length m =? n) ].
+    frame_ok (count_true m) Out && frame_ok n F;
+    length m =? n ].
 
 (* ---------- C10: the glue of reduce around the calls (Reduce2.v) ---------- *)
 From NP Require Import Dtype Names Reduce2.
